@@ -339,7 +339,7 @@ func genPaths(e *emitter) {
 		{"mutating-nodes", append(append([]Op{}, nodes...), pipe, Op{K: "thr", Ety: 1, V: 1}), [][]int{{8}, {8}, {8, 2}}},
 		{"filtered-sink-threshold-error", append(append([]Op{}, nodes...), pipe, Op{K: "thrs", Ety: 1, V: 1}), [][]int{{2}, {0}, {2}}},
 	}
-	for _, code := range []int{3, 4, 5, 6, 70, 71, 72, 73, 80, 81, 82, 83, 90, 91, 92, 93, 94, 95, 96, 97} {
+	for _, code := range []int{3, 4, 5, 6, 70, 71, 72, 73, 80, 81, 82, 83, 90, 91, 92, 93, 94, 95, 96, 97, 98} {
 		for pos := 0; pos < 3; pos += 2 {
 			b := [][]int{{0}, {0}, {2}}
 			b[pos] = []int{code}
@@ -535,6 +535,74 @@ func genReentrant(e *emitter) {
 	}
 }
 
+// ---------- unprintable warnings: typed-nil errors whose Error() panics, among two and three failing pipelines ----------
+func genUnprintable(e *emitter) {
+	idType := map[int]int{1: 1, 2: 1, 3: 1, 8: 2, 9: 3}
+	hist, o := histFor(idType, []int{1, 2, 3, 8, 9}, []pdesc{{1, 1, []int{1, 8, 9}}, {2, 1, []int{2, 8, 9}}, {3, 1, []int{3, 8, 9}}})
+	hist = append(hist, Op{K: "thr", Ety: 1, V: 1})
+	codes := []int{0, 3, 96, 98} // ok, an ordinary error, typed-nil *derefErr, typed-nil *multierror.Error
+	for v := 0; v < 64; v++ {
+		outs := []int{codes[v%4], codes[(v/4)%4], codes[(v/16)%4]}
+		fails, odd := 0, 0
+		for _, c := range outs {
+			if c != 0 {
+				fails++
+			}
+			if c >= 96 {
+				odd++
+			}
+		}
+		if fails < 2 || odd == 0 {
+			continue
+		}
+		beh := make([][]int, 5)
+		beh[o[8]-1], beh[o[9]-1] = []int{0}, []int{2}
+		for i, c := range outs {
+			beh[o[i+1]-1] = []int{c}
+		}
+		e.run(Case{Gen: "unprintable-warnings", Hist: hist, Ety: 1, Beh: beh})
+		pt := Point{Hook: "collector.select", Occ: 3}
+		e.run(Case{Gen: "unprintable-warnings-cancelled", Hist: hist, Ety: 1, Beh: beh, Sched: Sched{CancelAt: &pt}})
+		if v%3 == 0 {
+			e.run(Case{Gen: "unprintable-warnings-pre", Hist: hist, Ety: 1, Beh: beh, Sched: Sched{Pre: true}})
+		}
+	}
+}
+
+// ---------- callbacks: Sends issued from inside Reopen() / Close(), a write-locking call started just before ----------
+func genCallbacks(e *emitter) {
+	idType := map[int]int{1: 1, 2: 2, 3: 3, 4: 4, 5: 3, 6: 1}
+	base, _ := histFor(idType, []int{1, 2, 3, 4, 5, 6}, []pdesc{{1, 1, []int{1, 2, 3}}, {2, 1, []int{4, 5}}, {1, 2, []int{1, 2, 3}}})
+	writers := [][]Op{
+		{{K: "regnode", ID: 40, Ty: 1}},
+		{{K: "regpipe", Pid: 7, Ety: 2, IDs: []int{6, 2, 3}}},
+		{{K: "thr", Ety: 2, V: 0}},
+	}
+	for wi, wr := range writers {
+		for _, cbEty := range []int{1, 2} {
+			if e.stats["send_did_not_return"] >= 3 {
+				e.stats["callbacks_cut_short_after_hangs"]++
+				return
+			}
+			c := Case{Gen: "callbacks", Hist: base, Ety: 1, Beh: [][]int{{0}, {0}, {2, 0}, {1}, {0, 2}, {0}},
+				Then: []Step{
+					// Broker.Reopen: the sink's Reopen() sends
+					{CbOps: []Op{{K: "reopen"}}, CbObjs: []int{3}, CbWriter: wr, CbEty: cbEty, Ety: 1, Sched: Sched{Pre: wi == 1}},
+					// RemoveNode of an unused node: its Close() sends
+					{CbOps: []Op{{K: "rmnode", ID: 6}}, CbWriter: []Op{{K: "regnode", ID: 41 + wi, Ty: 1}}, CbEty: cbEty, Ety: 2},
+					// RemovePipelineAndNodes: the Close() of the first node it releases sends
+					{CbOps: []Op{{K: "rpan", Pid: 2, Ety: 1}}, CbWriter: []Op{{K: "regnode", ID: 45 + wi, Ty: 3}}, CbEty: cbEty, Ety: 1},
+					{Ety: 1, Sched: Sched{Pre: true}},
+				}}
+			numberSeq(&c)
+			for len(c.Beh) < 12 {
+				c.Beh = append(c.Beh, []int{0})
+			}
+			e.runSeq(c)
+		}
+	}
+}
+
 // ---------- stress: threshold setters of a type racing Sends of that type ----------
 func genStress(e *emitter, ms int) {
 	idType := map[int]int{1: 1, 2: 2, 3: 3, 4: 4}
@@ -605,6 +673,7 @@ func numberSeq(c *Case) int {
 	for i := range c.Then {
 		c.Then[i].Ops = num(c.Then[i].Ops)
 		c.Then[i].Async = num(c.Then[i].Async)
+		c.Then[i].CbWriter = num(c.Then[i].CbWriter)
 	}
 	c.Reent = num(c.Reent)
 	return k
@@ -814,6 +883,18 @@ func genTwoSendThirdParty(e *emitter, gates int) {
 				}
 				c.Beh[2], c.Beh[4] = []int{2, 0}, []int{0, 2}
 				e.runSeq(c)
+				// (not with the overwrite of an existing pipeline id: while the walk is open either version may be traversed)
+				if g[2] == 0 && s2 < 2 && !(len(tp) == 1 && tp[0].K == "regpipe" && tp[0].Pid == 2) {
+					// the same with Send #1 NOT cancelled and left IN FLIGHT: its root node is parked, so its walk over the
+					// pipelines is still open while the third party changes the registry and Send #2 runs; then it is let go and
+					// must return; the Sends after it must see the registry as the third party left it
+					d := c
+					d.Gen = "twosend-third-party-in-flight"
+					d.Sched = Sched{HoldGate: true, Detach: true, Caller: 0}
+					d.Then = append([]Step{}, c.Then...)
+					d.Then = append(d.Then, Step{Ety: 1}, Step{Ety: 1, Sched: Sched{Pre: true}})
+					e.runSeq(d)
+				}
 			}
 		}
 	}
@@ -1063,7 +1144,7 @@ func genRandom(e *emitter, r *hc.Rand, n int) {
 		for o := 0; o < nobj; o++ {
 			l := 1 + r.Intn(3)
 			for j := 0; j < l; j++ {
-				beh[o] = append(beh[o], []int{0, 0, 0, 0, 0, 0, 0, 1, 1, 2, 3, 3, 4, 5, 6, 70, 71, 72, 73, 80, 82, 8, 8, 90, 91, 92, 93, 94, 95, 96, 97}[r.Intn(31)])
+				beh[o] = append(beh[o], []int{0, 0, 0, 0, 0, 0, 0, 1, 1, 2, 3, 3, 4, 5, 6, 70, 71, 72, 73, 80, 82, 8, 8, 90, 91, 92, 93, 94, 95, 96, 97, 98}[r.Intn(32)])
 			}
 			if r.Chance(1, 12) {
 				gate = append(gate, o+1)
